@@ -25,7 +25,7 @@ import traceback
 
 import impl
 
-MAX_STMTS = 4000
+MAX_STMTS = 70000     # above the assembler's own MAX_REPETITIONS (2**16): a text cannot reach it through one .repeat nest any more
 MAX_SHIFT = 4096
 MAX_BITS = 1 << 20
 MAX_OPERATORS = 64       # operators in one expression
@@ -150,6 +150,72 @@ class RealMissFS(_BaseFS):
             return _BaseFS.open(self, path, mode, *a, **k)
         import builtins
         return builtins.open(path, mode, *a, **k)
+
+
+KNOWN_QUADRATIC = "deferred-repeat-quadratic"
+
+
+def _numeric(tok):
+    """value of an expression made of number literals only (what a '.repeat' count usually is), else None"""
+    try:
+        v = tok.resolve({})
+    except BaseException:
+        return None
+    return v if isinstance(v, int) else None
+
+
+def quadratic_repeat_shape(files):
+    """the structural predicate of the known finding `deferred-repeat-quadratic`: some file contains, before any '.link' / '. =' of
+    that file, a '.repeat' with a literal count >= 1000 whose body (at any depth) has a statement whose size depends on its address
+    ('.even', '.odd', '.align', or a '.blkb'/'.blkw'/'.repeat' operand mentioning '.').  Parsed with pdpy11's own parser."""
+    m = impl.load()
+    T, P, R = m["types"], m["parser"], m["reports"]
+
+    def mentions_dot(tok, depth=0):
+        if isinstance(tok, T.InstructionPointer):
+            return True
+        if depth > 50:
+            return False
+        return any(mentions_dot(v, depth + 1) for k, v in getattr(tok, "__dict__", {}).items() if k in ("lhs", "rhs", "operand", "expr"))
+
+    def addr_dep(block, depth=0):
+        for st in getattr(block, "insns", []):
+            if isinstance(st, T.Instruction):
+                nm = st.name.name.lower()
+                if nm in (".even", ".odd", ".align", "even", "odd", "align"):
+                    return True
+                for op in st.operands:
+                    if isinstance(op, T.CodeBlock):
+                        if depth < 10 and addr_dep(op, depth + 1):
+                            return True
+                    elif nm in (".blkb", ".blkw", ".repeat", "blkb", "blkw", "repeat") and mentions_dot(op):
+                        return True
+        return False
+
+    for fn, text in files:
+        try:
+            with R.handle_reports(lambda *a: None):
+                tree = P.parse(fn, text)
+        except BaseException:
+            continue
+        consts = {}
+        for st in tree.body.insns:          # 'name = <number literals>' anywhere in the file: a count may be spelled through it
+            if isinstance(st, T.Assignment) and isinstance(st.target, T.Symbol) and _numeric(st.value) is not None:
+                consts[st.target.name.lower()] = _numeric(st.value)
+        for st in tree.body.insns:
+            if isinstance(st, T.Assignment) and isinstance(st.target, T.InstructionPointer):
+                break
+            if isinstance(st, T.Instruction):
+                nm = st.name.name.lower()
+                if nm in (".link", "link"):
+                    break
+                if nm in (".repeat", "repeat") and st.operands and isinstance(st.operands[-1], T.CodeBlock) and len(st.operands) >= 2:
+                    cnt = _numeric(st.operands[0])
+                    if cnt is None and isinstance(st.operands[0], T.Symbol):
+                        cnt = consts.get(st.operands[0].name.lower())
+                    if cnt is not None and cnt >= 1000 and addr_dep(st.operands[-1]):
+                        return True
+    return False
 
 
 def sig_of(kind, crash):
@@ -342,6 +408,24 @@ def judge(case, watchdog=None, cli=True):
     return res
 
 
+_judge_raw = judge
+
+
+def judge(case, watchdog=None, cli=True):
+    """judge, then file watchdog hits / memory exhaustion of the known quadratic shape under the known finding's signature"""
+    res = _judge_raw(case, watchdog, cli)
+    slow = [v for v in res["verdicts"] if v["signature"] in ("hang", "cli-hang") or "MemoryError" in v["signature"]]
+    if slow:
+        files, _ = abs_case(case)
+        impl.reset_global_state()
+        if quadratic_repeat_shape(files):
+            for v in slow:
+                v["detail"] = {"was": v["signature"], **(v.get("detail") or {})}
+                v["signature"] = KNOWN_QUADRATIC
+                v["what"] = "a '.repeat' of >= 1000 address-dependent statements before the link base is known: quadratic time and memory (known finding)"
+    return res
+
+
 def judge_job(stream, seed, index, watchdog=None):
     """generate case #index of a stream (deterministically from seed) and judge it"""
     import random
@@ -439,6 +523,22 @@ def minimise(case, signature, watchdog=None, max_trials=400):
 
 def minimise_job(case, signature):
     return minimise(case, signature)
+
+
+def quadratic_witness():
+    """cheap witness of the known finding, measured in one worker: t('.repeat 1600. { .even }') / t('.repeat 400. { .even }'), no .link"""
+    _install()
+    out = {}
+    for n in (400, 400, 1600):
+        _reset()
+        _State.stmts = -10 ** 9          # the witness is a measurement, not a judged text
+        t0 = time.time()
+        r = impl.assemble([(f"{ROOT}/q.mac", f".repeat {n}. {{ .even }}\n")], watchdog=120)
+        dt = time.time() - t0
+        out[n] = min(out.get(n, 1e9), dt)
+        out["outcome"] = r["outcome"]
+    out["ratio"] = out[1600] / max(out[400], 1e-6)
+    return out
 
 
 def noop():
